@@ -51,7 +51,8 @@ CLAIMED = {
             "TLC; strict TFF reader (syntax cross-checked with tptp4X); the typing judgement is TFF0 without overloading",
             "TLA+ typing judgement for TFF evaluated by TLC on every recorded problem text", "tla-syntax"),
     "C10": (MC, "Prover.tla (one action per step of Command::Verify / prove_all / Vampire::prove) is model-checked exhaustively for small "
-                "constants (exactly-once, at-most-N, verdict iff all Theorem, termination under fairness); TLC-generated behaviours are "
+                "constants (exactly-once, at-most-N, verdict iff all Theorem, termination under fairness) and its flag part (FlagExact, FlagMonotone) "
+                "is proved with TLAPS for arbitrary constants (ProverProofs.tla, 65 obligations); TLC-generated behaviours are "
                 "replayed as plans against the real binary with a stand-in prover and every real run is validated by TLC as a behaviour "
                 "of the model", "7.1 C10",
             "TLC; the stand-in prover and the stdout parser; a Theorem line combined with a non-zero exit is never planned",
